@@ -271,6 +271,7 @@ type runner struct {
 	hold   bool
 	held   []M
 	synSeq map[int]uint32
+	mark   int // nemit at the last injection
 }
 
 func (r *runner) isTCP(sid int) bool {
@@ -342,6 +343,11 @@ func (r *runner) do(op M) M {
 		res["err"] = errStr(sk().ep.Listen(geti(op, "backlog", 5)))
 	case "accept":
 		ep, wq, err := sk().ep.Accept()
+		// wait_ms: a blocking accept (the handshake is completed by a protocol goroutine)
+		for dl := time.Now().Add(time.Duration(geti(op, "wait_ms", 0)) * time.Millisecond); err == tcpip.ErrWouldBlock && time.Now().Before(dl); {
+			time.Sleep(2 * time.Millisecond)
+			ep, wq, err = sk().ep.Accept()
+		}
 		res["err"] = errStr(err)
 		if err == nil {
 			r.socks[geti(op, "as", -1)] = &sock{ep: ep, wq: wq, typ: "tcp", v: sk().v}
@@ -488,7 +494,20 @@ func (r *runner) do(op M) M {
 	case "sleep":
 		time.Sleep(time.Duration(geti(op, "ms", 1)) * time.Millisecond)
 	case "settle":
-		// wait until no frame has been emitted for `ms` (default 20) milliseconds
+		// wait until no frame has been emitted for `ms` (default 20) milliseconds; await_ms: first wait (at most that long)
+		// for a frame emitted since the last injection (a reply that comes from a protocol goroutine: state-based, not timed)
+		if aw := geti(op, "await_ms", 0); aw > 0 {
+			dl := time.Now().Add(time.Duration(aw) * time.Millisecond)
+			for time.Now().Before(dl) {
+				r.mu.Lock()
+				seen := r.nemit != r.mark
+				r.mu.Unlock()
+				if seen {
+					break
+				}
+				time.Sleep(2 * time.Millisecond)
+			}
+		}
 		r.settle(time.Duration(geti(op, "ms", 20)) * time.Millisecond)
 	case "inject":
 		r.inject(op, res)
@@ -756,6 +775,9 @@ func runScenario(si int, sc scenario, tr *vh.Trace) {
 			}
 			canonAddrs(res)
 			tr.Log(res)
+			r.mu.Lock()
+			r.mark = r.nemit
+			r.mu.Unlock()
 			r.inject(op, M{})
 			continue
 		}
